@@ -63,7 +63,7 @@ func genWorkload(p wlParams) *rapid.Generator[Case] {
 				case f < p.FailPct:
 					// an oversized entry at a drawn position makes Commit fail
 					pos := rapid.IntRange(0, len(st.Ops)).Draw(t, "bigpos")
-					big := Op{K: "putbig", B: S(buckets[0]), Key: S(kvKeys[0])}
+					big := Op{K: "putbig", B: S(buckets[0]), Key: S(kvKeys[0]), I: rapid.SampledFrom([]int{0, 1, 1, 2}).Draw(t, "excess")}
 					ops := append([]Op(nil), st.Ops[:pos]...)
 					ops = append(ops, big)
 					ops = append(ops, st.Ops[pos:]...)
@@ -138,6 +138,7 @@ func runCrashCase(c Case, st *Stats, prop string, co crashOpts) error {
 	}
 	cs, err := exploreCrashes(c, rc, co, st, prop)
 	st.Sub(cs.Images)
+	st.Class("images-continued-after-recovery(write,close,open)", cs.Continued)
 	if err != nil {
 		return err
 	}
@@ -150,7 +151,7 @@ func runCrashCase(c Case, st *Stats, prop string, co crashOpts) error {
 }
 
 func runC10(c Case, st *Stats) error {
-	return runCrashCase(c, st, "C10", crashOpts{CheckState: true, Torn: true})
+	return runCrashCase(c, st, "C10", crashOpts{CheckState: true, Torn: true, Continue: true})
 }
 
 func init() { register("C10", runC10) }
